@@ -1,21 +1,36 @@
-"""C16: drive the allocators through Server option partitions and the Bus / Buffer users (NRT, no server process).
+"""C16: drive the allocators through Server option partitions and the Bus / Buffer / Node users (NRT, no server process).
 
-payload: {'cases': [{'opts': {...ServerOptions fields...}, 'client': k,
-                     'ops': [['A', n, r] | ['C', n, r] | ['B', n, r] | ['F', j] ]}]}
- A/C/B = AudioBus(n) / ControlBus(n) / Buffer.new_consecutive(n) (Buffer(...) when n == 1); F j = free the j-th object
- created so far (again = double free at object level).
-Output per case: {'params': {'audio': [size, pos_reserved, off], 'control': ..., 'buffer': ...},
-                  'logs': {'audio': [[op, entry]...], ...}, 'errors': [...]}
-where each log item is (['a', n, c] | ['f', addr], entry) with entry as in c16_alloc.py."""
+payload: {'cases': [{'opts': {...ServerOptions fields...}, 'client': k, 'ops': [...]}]}
+object-level ops (r = tie-break number):
+  ['A', n, r] / ['C', n, r]        AudioBus(n, s) / ControlBus(n, s)
+  ['Ai', n, k] / ['Ci', n, k]      AudioBus(n, s, index=k) / ControlBus(...)      explicit index (0 included)
+  ['B', n, r]                      Buffer(8, 1, s) (n == 1) or Buffer.new_consecutive(n, 8, 1, s)
+  ['Bi', n, k]                     the same with bufnum=k                          explicit number (0 included)
+  ['Bx']                           Buffer(None, 1, s): raises ValueError           error path of the constructor
+  ['F', j]                         free the j-th object created so far (again = double free at object level)
+  ['FA']                           Buffer.free_all(s)
+  ['N', n]                         n ids from s._next_node_id(), then Node/Group/Synth.basic_new with node_id=0 and =None
+  ['R', k]                         s._set_client_id(k): the allocators are re-created while objects are live
+  ['D', n, r]                      make the SECOND server the default, AudioBus(n) / ControlBus(n) / Buffer(8, 1) without
+                                   a server argument, restore the default
+Every call the objects make on an allocator is recorded by a spy on that allocator instance, together with the allocator's
+state after it; the driver checks the OBJECT-level expectations itself ('ledger'):
+  exactly the expected allocator calls, index/bufnum/node id equal to the explicit value or to what the allocator returned
+  (type int), nothing allocated by explicit-index constructors, double free does not reach the allocator, used blocks of
+  every allocator == the ranges handed to objects and not freed, the other server's allocators untouched.
+Output per case: {'segments': [{'which', 'server', 'params': [size, reserved, off], 'client', 'log': [[op, entry]...]}],
+                  'ledger': [messages], 'observations': [...], 'node': [...], 'errors': [...]}"""
 import json, os, sys, logging
 import sc3
 sc3.init(os.environ.get('SC3_MODE', 'nrt'))
 logging.disable(logging.CRITICAL)
 import sc3.synth._engine as eng
 import sc3.base.builtins as real_bi
+from sc3.base.netaddr import NetAddr
 from sc3.synth.server import Server
 from sc3.synth.bus import AudioBus, ControlBus, BusException
 from sc3.synth.buffer import Buffer
+from sc3.synth.node import Node, Group, Synth
 
 
 class Chooser:
@@ -39,6 +54,8 @@ class BiProxy:
 
 CH = Chooser()
 eng.bi = BiProxy(CH)
+KINDS = ('audio', 'control', 'buffer')
+ATTR = {'audio': '_audio_bus_allocator', 'control': '_control_bus_allocator', 'buffer': '_buffer_allocator'}
 
 
 def observe(a):
@@ -49,73 +66,227 @@ def observe(a):
     return a.top, cells, freed, alias
 
 
-def run_case(s, c):
-    o = s.options
-    for k, v in c['opts'].items():
-        setattr(o, k, v)
-    s._status_watcher._max_logins = None
-    s._set_client_id(c['client'])
-    al = {'audio': s._audio_bus_allocator, 'control': s._control_bus_allocator, 'buffer': s._buffer_allocator}
-    res = {'params': {k: [a.size, a.pos - a.addr_offset, a.addr_offset] for k, a in al.items()},
-           'client_id': s.client_id, 'first_private_bus': o.first_private_bus(),
-           'logs': {'audio': [], 'control': [], 'buffer': []}, 'errors': [],
-           'node': [s._node_allocator.user, s._next_node_id(), s._next_node_id()]}
-    objs = []
+class Run:
+    def __init__(self, servers):
+        self.servers = servers
+        self.segments = []
+        self.calls = []          # allocator calls of the current object-level op: (server idx, which, 'a'|'f', arg, result)
+        self.live = {}           # (server idx, which) -> {start: size} handed out and not freed (reset by 'R')
+        self.ledger = []
+        self.observations = []
+
+    def attach(self, si):
+        s = self.servers[si]
+        for which in KINDS:
+            a = getattr(s, ATTR[which])
+            seg = {'which': which, 'server': si, 'params': [a.size, a.pos - a.addr_offset, a.addr_offset],
+                   'client': s.client_id, 'log': []}
+            self.segments.append(seg)
+            self.live[(si, which)] = {}
+            self.spy(a, si, which, seg)
+
+    def spy(self, a, si, which, seg):
+        orig_alloc, orig_free = a.alloc, a.free
+        run = self
+
+        def alloc(n=1):
+            CH.last = None
+            r = orig_alloc(n)
+            top, cells, freed, alias = observe(a)
+            seg['log'].append([['a', n, CH.last], [0 if r is None else 1, r or 0, top, cells, freed, CH.last, alias]])
+            run.calls.append((si, which, 'a', n, r))
+            if r is not None and n >= 1:
+                run.live[(si, which)][r] = n
+            return r
+
+        def free(addr):
+            r = orig_free(addr)
+            if addr is not None:
+                top, cells, freed, alias = observe(a)
+                seg['log'].append([['f', addr], [0, 0, top, cells, freed, None, alias]])
+                run.live[(si, which)].pop(addr, None)
+            run.calls.append((si, which, 'f', addr, None))
+            return r
+
+        a.alloc, a.free = alloc, free
+
+    def expect(self, what, cond, detail):
+        if not cond:
+            self.ledger.append('%s: %s' % (what, detail))
+
+    def check_blocks(self, what):
+        for (si, which), live in self.live.items():
+            a = getattr(self.servers[si], ATTR[which])
+            used = sorted((b.start, b.size) for b in a.blocks())
+            self.expect(what, used == sorted(live.items()),
+                        'used blocks of the %s allocator of server %d are %s but the ranges handed out and not freed are %s' % (
+                            which, si, used, sorted(live.items())))
+
+
+def is_int(x):
+    return type(x) is int
+
+
+def run_case(servers, c):
+    for s in servers:
+        for k, v in c['opts'].items():
+            setattr(s.options, k, v)
+        s._status_watcher._max_logins = None
+    servers[0]._set_client_id(c['client'])
+    servers[1]._set_client_id(0)
+    Server.default = servers[0]
+    s = servers[0]
+    run = Run(servers)
+    run.attach(0)
+    run.attach(1)
+    res = {'client_id': s.client_id, 'first_private_bus': s.options.first_private_bus(), 'errors': [], 'node': []}
+    objs = []            # (kind, obj, server idx, allocated start or None, explicit)
+    cls = {'A': (AudioBus, 'audio'), 'C': (ControlBus, 'control')}
     for op in c['ops']:
         kind = op[0]
+        run.calls = []
+        what = '%s' % (op,)
         try:
-            if kind in 'ACB':
-                which = {'A': 'audio', 'C': 'control', 'B': 'buffer'}[kind]
-                CH.r, CH.last = op[2], None
-                n = op[1]
-                obj, idx = None, None
+            if kind in ('A', 'C'):
+                K, which = cls[kind]
+                CH.r = op[2]
+                obj = None
                 try:
-                    if kind == 'A':
-                        obj = AudioBus(n, s); idx = obj.index
-                    elif kind == 'C':
-                        obj = ControlBus(n, s); idx = obj.index
-                    elif n == 1:
-                        obj = Buffer(8, 1, s); idx = obj.bufnum
-                    else:
-                        obj = Buffer.new_consecutive(n, 8, 1, s)[0]; idx = obj.bufnum
+                    obj = K(op[1], s)
                 except BusException:
-                    idx = None
-                except Exception as e:
-                    if 'buffer numbers' in str(e) or 'No block' in str(e):
-                        idx = None
+                    pass
+                run.expect(what, [x[:4] for x in run.calls] == [(0, which, 'a', op[1])], 'allocator calls %s' % (run.calls,))
+                r = run.calls[0][4] if run.calls else None
+                if obj is None:
+                    run.expect(what, r is None, 'BusException although the allocator returned %r' % (r,))
+                else:
+                    run.expect(what, is_int(obj.index) and obj.index == r, 'index %r, allocator returned %r' % (obj.index, r))
+                objs.append((which, obj, 0))
+            elif kind in ('Ai', 'Ci'):
+                K, which = cls[kind[0]]
+                obj = K(op[1], s, index=op[2])
+                run.expect(what, run.calls == [], 'explicit index reached the allocator: %s' % (run.calls,))
+                run.expect(what, is_int(obj.index) and obj.index == op[2], 'index is %r, not the explicit %r' % (obj.index, op[2]))
+                objs.append((which, obj, 0))
+            elif kind in ('B', 'Bi'):
+                n = op[1]
+                explicit = kind == 'Bi'
+                CH.r = 0 if explicit else op[2]
+                bufs = None
+                try:
+                    if n == 1:
+                        bufs = [Buffer(8, 1, s, bufnum=op[2])] if explicit else [Buffer(8, 1, s)]
                     else:
+                        bufs = Buffer.new_consecutive(n, 8, 1, s, bufnum=op[2]) if explicit else Buffer.new_consecutive(n, 8, 1, s)
+                except Exception as e:
+                    if not ('buffer numbers' in str(e) or 'No block' in str(e)):
                         raise
-                top, cells, freed, alias = observe(al[which])
-                res['logs'][which].append([['a', n, CH.last], [0 if idx is None else 1, idx or 0, top, cells, freed, CH.last, alias]])
-                objs.append((which, obj))
-            else:
+                if explicit:
+                    run.expect(what, run.calls == [], 'explicit bufnum reached the allocator: %s' % (run.calls,))
+                    base = op[2]
+                else:
+                    run.expect(what, [x[:4] for x in run.calls] == [(0, 'buffer', 'a', n)], 'allocator calls %s' % (run.calls,))
+                    base = run.calls[0][4] if run.calls else None
+                    if bufs is None:
+                        run.expect(what, base is None, 'exception although the allocator returned %r' % (base,))
+                if bufs is not None:
+                    nums = [b.bufnum for b in bufs]
+                    run.expect(what, base is not None and all(is_int(x) for x in nums) and nums == list(range(base, base + n)),
+                               'buffer numbers %r, expected %r..' % (nums, base))
+                objs.append(('buffer', bufs[0] if bufs else None, 0))
+            elif kind == 'Bx':
+                before = sorted(run.live[(0, 'buffer')].items())
+                try:
+                    Buffer(None, 1, s)
+                    run.expect(what, False, 'no exception')
+                except ValueError:
+                    pass
+                except Exception as e:
+                    if not ('buffer numbers' in str(e) or 'No block' in str(e)):
+                        raise
+                if sorted(run.live[(0, 'buffer')].items()) != before:
+                    run.observations.append('Buffer(None, 1, s) raised ValueError AFTER taking a buffer number: %s leaked' % (
+                        [x for x in sorted(run.live[(0, 'buffer')].items()) if x not in before],))
+            elif kind == 'F':
                 if not objs:
                     continue
-                which, obj = objs[op[1] % len(objs)]
+                which, obj, si = objs[op[1] % len(objs)]
                 if obj is None:
                     continue
                 addr = obj.bufnum if which == 'buffer' else obj.index
-                if which == 'buffer' and addr is None:
-                    continue            # double Buffer.free is C17's business (F15)
                 obj.free()
-                if addr is not None:
-                    top, cells, freed, alias = observe(al[which])
-                    res['logs'][which].append([['f', addr], [0, 0, top, cells, freed, None, alias]])
+                if addr is None:
+                    run.expect(what, run.calls == [], 'double free reached the allocator: %s' % (run.calls,))
+                else:
+                    run.expect(what, [x[:4] for x in run.calls] == [(si, which, 'f', addr)], 'allocator calls %s, expected free(%r)' % (run.calls, addr))
+                    now = obj.bufnum if which == 'buffer' else obj.index
+                    run.expect(what, now is None, 'object still has index %r after free' % (now,))
+            elif kind == 'FA':
+                Buffer.free_all(s)
+                run.expect(what, s._buffer_allocator.blocks() == [], 'used blocks remain: %s' % (s._buffer_allocator.blocks(),))
+                run.expect(what, all(x[2] == 'f' and x[:2] == (0, 'buffer') for x in run.calls), 'calls %s' % (run.calls,))
+            elif kind == 'N':
+                temp0 = s._node_allocator._temp
+                ids = [s._next_node_id() for _ in range(op[1])]
+                n0 = Node.basic_new(s, 0)
+                g0 = Group.basic_new(s, 0)
+                y0 = Synth.basic_new('default', s, 0)
+                g1 = Group.basic_new(s)
+                for o0 in (n0, g0, y0):
+                    run.expect(what, is_int(o0.node_id) and o0.node_id == 0, 'explicit node id 0 became %r' % (o0.node_id,))
+                res['node'].append({'temp0': temp0, 'client': s.client_id, 'user': s._node_allocator.user, 'init': s._node_allocator._init_temp, 'ids': ids + [g1.node_id],
+                                    'mask': s._node_allocator._mask, 'temp': s._node_allocator._temp,
+                                    'id_offset': s._node_allocator.id_offset()})
+                run.expect(what, run.calls == [], 'node ids reached a bus/buffer allocator: %s' % (run.calls,))
+            elif kind == 'R':
+                s._set_client_id(op[1])
+                run.attach(0)            # new allocators: new segments; the objects created so far are stale
+                res['client_id'] = s.client_id
+            elif kind == 'D':
+                Server.default = servers[1]
+                try:
+                    CH.r = op[2]
+                    made = []
+                    for K, which in ((AudioBus, 'audio'), (ControlBus, 'control')):
+                        try:
+                            made.append((which, K(op[1])))
+                        except BusException:
+                            made.append((which, None))
+                    try:
+                        made.append(('buffer', Buffer(8, 1)))
+                    except Exception as e:
+                        if not ('buffer numbers' in str(e) or 'No block' in str(e)):
+                            raise
+                        made.append(('buffer', None))
+                finally:
+                    Server.default = servers[0]
+                run.expect(what, [x[:3] for x in run.calls] == [(1, 'audio', 'a'), (1, 'control', 'a'), (1, 'buffer', 'a')],
+                           'objects created without a server argument while another server is the default called %s' % (run.calls,))
+                for (which, obj), call in zip(made, run.calls):
+                    if obj is not None:
+                        run.expect(what, obj._server is servers[1], '%s object bound to server %s' % (which, obj._server.name))
+                        objs.append((which, obj, 1))
+            run.check_blocks(what)
         except Exception as e:
             res['errors'].append('%s: %s: %s' % (op, type(e).__name__, e))
             break
+    res['segments'] = run.segments
+    res['ledger'] = run.ledger
+    res['observations'] = run.observations
     return res
 
 
 def main():
     p = json.load(open(sys.argv[1]))
-    s = Server.default
+    s1 = Server.default
+    s2 = Server('c16second', NetAddr('127.0.0.1', 57190))
     out = []
     for c in p['cases']:
         try:
-            out.append(run_case(s, c))
+            out.append(run_case([s1, s2], c))
         except Exception as e:
-            out.append({'fatal': '%s: %s' % (type(e).__name__, e)})
+            import traceback
+            out.append({'fatal': '%s: %s\n%s' % (type(e).__name__, e, traceback.format_exc()[-800:])})
     json.dump({'cases': out}, open(sys.argv[2], 'w'))
 
 
